@@ -11,3 +11,136 @@ impl Extra {
         Extra {}
     }
 }
+
+// ------------------------------------------------------------------------------------------------
+// cursors (C19)
+
+use epserde::utils::AlignedCursor;
+use std::io::{Read, Seek, SeekFrom, Write};
+
+#[derive(Clone, Debug)]
+pub enum COp {
+    Write(Vec<u8>),
+    Read(usize),
+    SeekStart(u64),
+    SeekEnd(i64),
+    SeekCur(i64),
+    SetPos(u64),
+    Flush,
+}
+
+pub fn parse_cops(s: &str) -> Option<Vec<COp>> {
+    let mut v = vec![];
+    for t in s.split(';') {
+        if t.is_empty() {
+            continue;
+        }
+        let (k, a) = match t.split_once(':') {
+            Some((k, a)) => (k, a),
+            None => (t, ""),
+        };
+        v.push(match k {
+            "w" => COp::Write(crate::term::unhex(a)),
+            "r" => COp::Read(a.parse().ok()?),
+            "ss" => COp::SeekStart(a.parse().ok()?),
+            "se" => COp::SeekEnd(a.parse().ok()?),
+            "sc" => COp::SeekCur(a.parse().ok()?),
+            "p" => COp::SetPos(a.parse().ok()?),
+            "f" => COp::Flush,
+            _ => return None,
+        });
+    }
+    Some(v)
+}
+
+fn io_err(e: &std::io::Error) -> String {
+    match e.kind() {
+        std::io::ErrorKind::InvalidInput => "einv".into(),
+        k => format!("e{:?}", k),
+    }
+}
+
+trait Cur: Read + Write + Seek {
+    fn set_pos(&mut self, p: u64);
+    fn state(&mut self) -> (Vec<u8>, usize, u64, usize);
+}
+impl<T: maligned::Alignment> Cur for AlignedCursor<T> {
+    fn set_pos(&mut self, p: u64) {
+        self.set_position(p as usize)
+    }
+    fn state(&mut self) -> (Vec<u8>, usize, u64, usize) {
+        let l = self.len();
+        let p = self.position() as u64;
+        let b = self.as_bytes();
+        let ptr = if l == 0 { 0 } else { b.as_ptr() as usize % core::mem::align_of::<T>() };
+        (b.to_vec(), l, p, ptr)
+    }
+}
+impl Cur for std::io::Cursor<Vec<u8>> {
+    fn set_pos(&mut self, p: u64) {
+        self.set_position(p)
+    }
+    fn state(&mut self) -> (Vec<u8>, usize, u64, usize) {
+        (self.get_ref().clone(), self.get_ref().len(), self.position(), 0)
+    }
+}
+
+fn run_cur<C: Cur>(c: &mut C, ops: &[COp]) -> String {
+    let mut outs: Vec<String> = vec![];
+    for op in ops {
+        let r = crate::catch(|| match op {
+            COp::Write(b) => match c.write(b) {
+                Ok(n) => format!("w{}", n),
+                Err(e) => io_err(&e),
+            },
+            COp::Read(n) => {
+                let mut buf = vec![0xEEu8; *n];
+                match c.read(&mut buf) {
+                    Ok(k) => format!("b{}", crate::term::hex(&buf[..k])),
+                    Err(e) => io_err(&e),
+                }
+            }
+            COp::SeekStart(n) => match c.seek(SeekFrom::Start(*n)) {
+                Ok(p) => format!("p{}", p),
+                Err(e) => io_err(&e),
+            },
+            COp::SeekEnd(i) => match c.seek(SeekFrom::End(*i)) {
+                Ok(p) => format!("p{}", p),
+                Err(e) => io_err(&e),
+            },
+            COp::SeekCur(i) => match c.seek(SeekFrom::Current(*i)) {
+                Ok(p) => format!("p{}", p),
+                Err(e) => io_err(&e),
+            },
+            COp::SetPos(p) => {
+                c.set_pos(*p);
+                "u".into()
+            }
+            COp::Flush => match c.flush() {
+                Ok(()) => "u".into(),
+                Err(e) => io_err(&e),
+            },
+        });
+        match r {
+            Some(s) => outs.push(s),
+            None => {
+                outs.push("panic".into());
+                break;
+            }
+        }
+    }
+    let (b, l, p, ptr) = c.state();
+    format!("{} | {} {} {} {}", outs.join(","), crate::term::hex(&b), l, p, if ptr == 0 { "ptrok" } else { "ptrbad" })
+}
+
+pub fn cursor_op(align: &str, ops: &str) -> String {
+    let Some(ops) = parse_cops(ops) else { return "badops".into() };
+    let a = match align {
+        "16" => run_cur(&mut AlignedCursor::<maligned::A16>::new(), &ops),
+        "32" => run_cur(&mut AlignedCursor::<maligned::A32>::new(), &ops),
+        "64" => run_cur(&mut AlignedCursor::<maligned::A64>::new(), &ops),
+        _ => return "badalign".into(),
+    };
+    let s = run_cur(&mut std::io::Cursor::new(Vec::<u8>::new()), &ops);
+    format!("cursor {} || {}", a, s)
+}
